@@ -6,6 +6,7 @@ package replication_test
 
 import (
 	"encoding/binary"
+	"fmt"
 	"math"
 	"testing"
 
@@ -14,6 +15,12 @@ import (
 	kit "github.com/WuKongIM/WuKongIM/pkg/zzverif/c27kit"
 	"github.com/WuKongIM/WuKongIM/pkg/zzverif/ev"
 )
+
+// c27Bounds: values at max-1 / max (must round-trip) and max+1 (must be rejected by the encoder
+// or the decoder) of every length-bounded field of the exchange codec.
+type c27Bounds struct {
+	batchOK, batchOver, resultOK, resultOver []kit.Value
+}
 
 type c27Proposal struct {
 	manifest ch.ProposalManifest
@@ -30,7 +37,7 @@ func c27Seal(t *testing.T, m ch.ProposalManifest, records []ch.Record) c27Propos
 	return c27Proposal{manifest: sealed, records: records, entries: entries}
 }
 
-func c27ReplicationValues(t *testing.T) (batches, results []kit.Value) {
+func c27ReplicationValues(t *testing.T) (batches, results []kit.Value, bnd c27Bounds) {
 	id := ch.ChannelID{ID: "codec", Type: 1}
 	key := ch.ChannelKey("1:codec")
 	// proposal 1: one record at offset 1
@@ -120,7 +127,91 @@ func c27ReplicationValues(t *testing.T) (batches, results []kit.Value) {
 			replication.ExchangeItemResult{RequestID: 3, Fetch: replication.FetchResult{Proof: fetchProof, State: state1, Proposals: []replication.RecoveryProposal{{Manifest: p1.manifest, Records: p1.records}}}},
 		)},
 	}
-	return batches, results
+	// ---- declared maxima: MaxExchangeBatchItems = maxRecoveryProbeIndexes =
+	// maxRecoveryReplacementProposals = 256 elements, MaxExchangeBatchBytes = 4 MiB per frame
+	const maxN = replication.MaxExchangeBatchItems
+	idx := func(n int) []uint64 {
+		out := make([]uint64, n)
+		for i := range out {
+			out[i] = uint64(i + 1)
+		}
+		return out
+	}
+	recs := func(n int, payload int) c27Proposal {
+		rs := make([]ch.Record, n)
+		for i := range rs {
+			rs[i] = ch.Record{ID: uint64(i + 1), Epoch: 3, ServerTimestampMS: 1}
+		}
+		if payload > 0 {
+			rs[0].Payload = make([]byte, payload)
+		}
+		return c27Seal(t, ch.ProposalManifest{Version: ch.ProposalManifestVersion, ChannelEpoch: 3, LeaderTerm: 5, FenceVersion: 7,
+			CommandID: ch.CommandID{9}, BaseOffset: 0, LastOffset: uint64(n)}, rs)
+	}
+	repN := func(n, payload int) replication.ReplicateRequest {
+		p := recs(n, payload)
+		return replication.ReplicateRequest{ChannelKey: key, ChannelID: id, Leader: 1, Follower: 2, Manifest: p.manifest, Records: p.records}
+	}
+	put := func(n int, ok, over *[]kit.Value, label string, v any) {
+		l := fmt.Sprintf("%s=%d", label, n)
+		if n > maxN {
+			*over = append(*over, kit.Value{Label: l, V: v})
+		} else {
+			*ok = append(*ok, kit.Value{Label: l, V: v})
+		}
+	}
+	for _, n := range []int{maxN - 1, maxN, maxN + 1} {
+		pr := probeNil
+		pr.Indexes = idx(n)
+		put(n, &bnd.batchOK, &bnd.batchOver, "probe-indexes", batch(fg, item(1, pr)))
+		items := make([]replication.ExchangeItem, n)
+		for i := range items {
+			items[i] = item(uint64(i+1), probeNil)
+		}
+		put(n, &bnd.batchOK, &bnd.batchOver, "batch-items", batch(fg, items...))
+		put(n, &bnd.batchOK, &bnd.batchOver, "replicate-records", batch(bg, item(1, repN(n, 0))))
+
+		pp := probeProof
+		pp.Indexes = idx(n)
+		put(n, &bnd.resultOK, &bnd.resultOver, "proof-indexes", res(replication.ExchangeItemResult{RequestID: 1, Probe: replication.ProbeResult{Proof: pp}}))
+		entries := make([]replication.EntryProbe, n)
+		for i := range entries {
+			entries[i] = replication.EntryProbe{Index: uint64(i + 1)}
+		}
+		put(n, &bnd.resultOK, &bnd.resultOver, "probe-entries", res(replication.ExchangeItemResult{RequestID: 1, Probe: replication.ProbeResult{Entries: entries}}))
+		put(n, &bnd.resultOK, &bnd.resultOver, "fetch-proposals", res(replication.ExchangeItemResult{RequestID: 1, Fetch: replication.FetchResult{Proposals: make([]replication.RecoveryProposal, n)}}))
+		put(n, &bnd.resultOK, &bnd.resultOver, "proposal-records", res(replication.ExchangeItemResult{RequestID: 1, Fetch: replication.FetchResult{Proposals: []replication.RecoveryProposal{{Records: make([]ch.Record, n)}}}}))
+		ritems := make([]replication.ExchangeItemResult, n)
+		for i := range ritems {
+			ritems[i] = replication.ExchangeItemResult{RequestID: uint64(i + 1)}
+		}
+		put(n, &bnd.resultOK, &bnd.resultOver, "result-items", res(ritems...))
+	}
+	// frames of exactly MaxExchangeBatchBytes-1, MaxExchangeBatchBytes, MaxExchangeBatchBytes+1 bytes
+	const maxB = replication.MaxExchangeBatchBytes
+	base := maxB - 4096
+	encB, err := replication.EncodeExchangeBatch(batch(bg, item(1, repN(1, base))))
+	if err != nil {
+		t.Fatalf("c27: sizing batch: %v", err)
+	}
+	resWith := func(payload int) replication.ExchangeBatchResult {
+		return res(replication.ExchangeItemResult{RequestID: 1, Fetch: replication.FetchResult{Proposals: []replication.RecoveryProposal{{Records: []ch.Record{{Payload: make([]byte, payload)}}}}}})
+	}
+	encR, err := replication.EncodeExchangeBatchResult(resWith(base))
+	if err != nil {
+		t.Fatalf("c27: sizing result: %v", err)
+	}
+	for _, target := range []int{maxB - 1, maxB, maxB + 1} {
+		l := fmt.Sprintf("frame-bytes=%d", target)
+		bv := kit.Value{Label: l, V: batch(bg, item(1, repN(1, base+target-len(encB))))}
+		rv := kit.Value{Label: l, V: resWith(base + target - len(encR))}
+		if target > maxB {
+			bnd.batchOver, bnd.resultOver = append(bnd.batchOver, bv), append(bnd.resultOver, rv)
+		} else {
+			bnd.batchOK, bnd.resultOK = append(bnd.batchOK, bv), append(bnd.resultOK, rv)
+		}
+	}
+	return batches, results, bnd
 }
 
 // the frame starts with uvarint(version); anything else is not an exchange frame
@@ -139,7 +230,7 @@ func c27MustRejectVersion(in []byte) string {
 }
 
 func TestVerifC27Replication(t *testing.T) {
-	batches, results := c27ReplicationValues(t)
+	batches, results, bnd := c27ReplicationValues(t)
 	ver := byte(replication.ExchangeVersion)
 	batchCodec := &kit.Codec{
 		Name:   "replication.ExchangeBatch",
@@ -154,6 +245,8 @@ func TestVerifC27Replication(t *testing.T) {
 		MustReject:      c27MustRejectVersion,
 		StrictStability: true,
 		Values:          batches,
+		Boundary:        bnd.batchOK,
+		OverMax:         bnd.batchOver,
 		Headers:         [][]byte{{ver}, {ver, 0}, {ver, 1}, {ver, 0, 1}, {ver, 0, 1, 1}, {ver, 0, 1, 1, 1}, {ver, 0, 1, 1, 2}, {ver, 0, 1, 1, 3}},
 	}
 	resultCodec := &kit.Codec{
@@ -171,11 +264,15 @@ func TestVerifC27Replication(t *testing.T) {
 		MustReject:      c27MustRejectVersion,
 		StrictStability: true,
 		Values:          results,
+		Boundary:        bnd.resultOK,
+		OverMax:         bnd.resultOver,
 		Headers:         [][]byte{{ver}, {ver, 1}, {ver, 1, 1}, {ver, 1, 1, 1}, {ver, 2}},
 	}
 	kit.Main(t, "C27", func() []*kit.Codec { return []*kit.Codec{batchCodec, resultCodec} }, func(r *ev.R, replaying bool) {
 		if !replaying {
 			r.Guard("replication-menu", len(batches) >= 8 && len(results) >= 8, "batch values=%d result values=%d", len(batches), len(results))
+			r.Guard("replication-boundary-lengths", len(bnd.batchOK) >= 8 && len(bnd.resultOK) >= 12 && len(bnd.batchOver) >= 4 && len(bnd.resultOver) >= 6,
+				"at-or-below-maximum values: batch=%d result=%d; over-maximum values: batch=%d result=%d", len(bnd.batchOK), len(bnd.resultOK), len(bnd.batchOver), len(bnd.resultOver))
 		}
 	})
 }
